@@ -65,442 +65,449 @@ def run(ck):
                  "all 27 consistent cases; weekday 0 is normalised to 7 = isoweekday() of Sunday; TimeSpan = "
                  "now in span", 'truthiness domain', 30)
 
-    # ------------------------------------------------------------------ R07.1
-    # non-emptiness facts
-    try:
-        set24 = prog.lookup(mod, '_SET24')
-        nonempty24 = set24 is not None and set24[0] == 'value' and isinstance(set24[1], ast.Call) and \
-            call_name(set24[1]) == 'frozenset' and isinstance(set24[1].args[0], ast.GeneratorExp) and \
-            norm(set24[1].args[0].generators[0].iter) == 'range(24)' and \
-            not set24[1].args[0].generators[0].ifs
-    except Exception:
-        nonempty24 = False
-    elt_ok = nonempty24 and norm(set24[1].args[0].elt) in ('dt.time(hour, 0, 0)', 'dt.time(hour)',
-                                                           'dt.time(hour, 0)')
-    ck.ob(R2, f"{mod.path} :: _SET24", bool(elt_ok),
-          "_SET24 = the 24 full hours (non-empty): wake-ups at least hourly" if elt_ok else
-          "_SET24 is not the set of the 24 full hours", None, f"{mod.path}:1")
-    n_partial = 0
-    for m in cron.methods.values():
-        g = None
-        for x in own_nodes(m.node):
-            if not isinstance(x, ast.Call):
-                continue
-            bad = None
-            if isinstance(x.func, ast.Attribute) and x.func.attr in PARTIAL_ON_EMPTY and \
-                    isinstance(x.func.value, ast.Name) and x.func.value.id in ('set', 'frozenset') and \
-                    x.args and all(isinstance(a, ast.Starred) for a in x.args):
-                bad = f"`{norm(x)}`: the unbound method needs at least one argument"
-                operand = norm(x.args[0].value)
-            elif isinstance(x.func, ast.Name) and x.func.id in ('max', 'min') and len(x.args) == 1 and \
-                    not any(k.arg == 'default' for k in x.keywords) and '_alarms' in norm(x.args[0]):
-                bad = f"`{norm(x)}` has no default"
-                operand = norm(x.args[0])
-            elif isinstance(x.func, ast.Name) and x.func.id == 'next' and len(x.args) == 1 and \
-                    '_alarms' in norm(x.args[0]):
-                bad = f"`{norm(x)}` has no default"
-                operand = norm(x.args[0])
-            if bad is None:
-                continue
-            n_partial += 1
-            g = g or ck.cfg(m.fid, 'M0')
-            nodes = g.node_of(x)
-            guarded = bool(nodes) and (g.has_guard(nodes[0], 'self._alarms', True) or
-                                       g.has_guard(nodes[0], 'len(self._alarms) > 0', True))
-            possibly_empty = '_alarms' in operand
-            ck.ob(R1, f"{m.fid} :: {norm1(x)}", guarded or not possibly_empty,
-                  "operand is never empty here" if guarded or not possibly_empty else
-                  f"{bad}; self._alarms may be empty (remove_block deletes keys; a TimeSpan whose "
-                  f"ranges lie in the past registers nothing) -> TypeError in the monitored "
-                  f"service task -> the simulation is terminated", m, x)
-    g = ck.cfg(mt.fid, 'M0')
-    tt = nodes_where(g, lambda n: isinstance(n.ast, ast.Assign) and norm(n.ast.targets[0]) == 'timetable')
-    ok = len(tt) == 1 and '_SET24' in norm(tt[0].ast.value) and 'union' in norm(tt[0].ast.value) \
-        and call_name(tt[0].ast.value) == 'sorted'
-    ck.ob(R1, f"{mt.fid} :: time table", ok and bool(nonempty24),
-          "timetable = sorted(_SET24 U alarms): non-empty, so `% len(timetable)` and "
-          "timetable[index] are total" if ok and nonempty24 else
-          "the time table may be empty (modulo by zero / index error in the scheduler) or is not "
-          "sorted", mt, tt[0].ast if tt else mt.node)
-    mods = [x for x in own_nodes(mt.node) if isinstance(x, ast.BinOp) and isinstance(x.op, ast.Mod)]
-    tl = nodes_where(g, lambda n: isinstance(n.ast, ast.Assign) and norm(n.ast.value) == 'len(timetable)')
-    lname = norm(tl[0].ast.targets[0]) if tl else None
-    ok = bool(mods) and all(norm(m_.right) in (lname, 'len(timetable)') for m_ in mods)
-    ck.ob(R1, f"{mt.fid} :: modulo operands", ok,
-          f"every modulo in the scheduler is by len(timetable) ({len(mods)} sites)" if ok else
-          "a modulo operand in the scheduler is not the (non-zero) table length", mt, mt.node)
-    # the reset loop covers all registered blocks without a partial operation
-    rs_branch = [n for n in g.nodes if n.kind == 'branch' and n.polarity and
-                 norm(n.test.ast) == 'reset.test_clear()']
-    ck.need(R2, len(rs_branch) == 1, "_maintask: reset branch not recognised")
-    rb = rs_branch[0]
-    in_reset = g.reachable_from(rb, avoid=[n for n in g.nodes if n.kind == 'test' and
-                                           isinstance(n.stmt, ast.While)])
-    rc = [n for n in nodes_calling(g, 'recalc') if n.id in in_reset and g.dominates(rb, n)]
-    loops = [l for l in g.nodes if l.kind == 'for' and rc and g.dominates(l, rc[0]) and g.dominates(rb, l)]
-    ok = len(rc) == 1 and len(loops) == 1 and 'self._alarms.values()' in norm(loops[0].ast.iter)
-    if ok:
-        c = node_calls(rc[0], 'recalc')[0]
-        ok = [norm(a) for a in c.args] == ['nowdt'] and recv(c) == norm(loops[0].ast.target)
-    ck.ob(R2, f"{mt.fid} :: reset recalculates everything", ok,
-          "after a clock anomaly every registered block gets recalc(now)" if ok else
-          "the reset branch does not call recalc(now) on every registered block", mt,
-          rc[0].ast if rc else mt.node)
-    idx = [n for n in g.nodes if n.kind == 'stmt' and isinstance(n.ast, ast.Assign) and
-           norm(n.ast.targets[0]) == 'index' and is_const(n.ast.value, None) and g.dominates(rb, n)]
-    cont = [n for n in g.nodes if n.kind == 'stmt' and isinstance(n.ast, ast.Continue) and g.dominates(rb, n)]
-    ok = bool(idx) and bool(cont) and g.path_avoiding(rb, cont, avoid=idx) is None
-    ck.ob(R2, f"{mt.fid} :: reset forgets the index", ok,
-          "index = None, continue: the next wake-up is recomputed from the current clock" if ok
-          else "after a reset the scheduler keeps a stale position in the time table", mt,
-          idx[0].ast if idx else mt.node)
-    raises = [x for x in own_nodes(mt.node) if isinstance(x, ast.Raise)]
-    ck.ob(R2, f"{mt.fid} :: no raise", not raises,
-          "the scheduler contains no raise statement" if not raises else
-          f"the scheduler raises: {norm1(raises[0])}", mt, raises[0] if raises else mt.node)
-    nowr = nodes_where(g, lambda n: isinstance(n.ast, ast.Assign) and norm(n.ast.value) == 'self.dtnow()')
-    ok = len(nowr) >= 2 and all(norm(n.ast.targets[0]) == 'nowdt' for n in nowr)
-    ck.ob(R2, f"{mt.fid} :: clock re-read", ok,
-          "the clock is re-read after every sleep" if ok else
-          "the scheduler does not re-read the clock after sleeping", mt, mt.node)
-
-    # ------------------------------------------------------------------ R07.6
-    R6 = ck.rule('R07.6', "the next wake-up is the first table entry that is NOT BEFORE the current "
-                 "time (equality included): an alarm whose time equals the clock reading at start / "
-                 "reload / reset is due now, not tomorrow", 'M0', 1)
-    searches = [x for x in own_nodes(mt.node) if isinstance(x, ast.Call) and
-                call_name(x) in ('bisect_left', 'bisect_right', 'bisect') and
-                len(x.args) >= 2 and norm(x.args[0]) == 'timetable']
-    ck.need(R6, len(searches) == 1, "_maintask: the time-table search is not a single bisect call "
-            "(unrecognised idiom)")
-    sc_ = searches[0]
-    okb = call_name(sc_) == 'bisect_left' and norm(sc_.args[1]) == 'nowt'
-    nowt_defs = [x for x in own_nodes(mt.node) if isinstance(x, ast.Assign) and norm(x.targets[0]) == 'nowt']
-    okb = okb and bool(nowt_defs) and all(norm(x.value) == 'nowdt.time()' for x in nowt_defs)
-    ck.ob(R6, f"{mt.fid} :: {norm1(sc_)}", okb,
-          "bisect_left(timetable, now): an entry equal to now is the next wake-up" if okb else
-          f"`{norm(sc_)}` skips an alarm whose time equals the current clock reading (its blocks "
-          f"stay stale until the next day)", mt, sc_)
-
-    # ------------------------------------------------------------------ R07.3
-    for q, store_attrs in ((TD, ('_times', '_dates', '_weekdays')), (TS, ('_span',))):
-        ci = prog.cls(q)
-        rcf = ci.methods.get('_event_reconfig')
-        ck.need(R3, rcf is not None, f"{q}._event_reconfig not found")
-        gq = ck.cfg(rcf.fid, 'M0')
-
-        def events(n, gq=gq, store_attrs=store_attrs):
-            ev = []
-            for c in node_calls(n):
-                cn = call_name(c)
-                if cn == 'remove_block' and recv(c) == 'self._cron':
-                    ev.append('Rm')
-                elif cn == 'add_block' and recv(c) == 'self._cron':
-                    ev.append('Ad')
-                elif cn == 'reload' and recv(c) == 'self._cron':
-                    ev.append('Rl')
-                elif cn == 'recalc' and recv(c) == 'self':
-                    ev.append('Rc')
-            if n.kind == 'stmt' and any(n in nodes_writing_attr(gq, a) for a in store_attrs):
-                ev.append('St')
-            return ev
-        ok, wit, st = check_language(gq, "Rm* St Ad* Rl Rc", events, [gq.exit])
-        ck.product_states += st['product_states']
-        ck.ob(R3, f"{rcf.fid} :: remove* store add* reload recalc", ok,
-              "old end points are removed, the configuration is stored, the new end points are "
-              "added, the scheduler is reloaded, the output is recalculated -- on every path"
-              if ok else f"a path performs {' '.join(wit[1])}", rcf, rcf.node,
-              witness=path_witness(gq, wit[0]) if wit else None)
-        for n in nodes_calling(gq, 'add_block') + nodes_calling(gq, 'remove_block'):
-            c = [c for c in node_calls(n) if call_name(c) in ('add_block', 'remove_block')][0]
-            okself = len(c.args) == 2 and norm(c.args[1]) == 'self'
-            if not okself:
-                ck.ob(R3, f"{rcf.fid} :: {norm1(n.ast)}", False,
-                      "a block registers/unregisters something else than itself", rcf, n.ast)
-        nowsrc = [n for n in nodes_calling(gq, 'recalc')]
-        okn = bool(nowsrc)
-        for n in nowsrc:
-            a = node_calls(n, 'recalc')[0].args[0]
-            okn = okn and expr_is(ck, rcf.fid, 'M0', n, a, 'self._cron.dtnow()')
-        ck.ob(R4, f"{rcf.fid} :: now from the scheduler", okn,
-              "recalc receives self._cron.dtnow() (same clock and UTC/local mode as the "
-              "scheduler)" if okn else "the reconfiguration computes 'now' from another clock",
-              rcf, nowsrc[0].ast if nowsrc else rcf.node)
-    tdr = prog.cls(TD).methods['_event_reconfig']
-    gq = ck.cfg(tdr.fid, 'M0')
-    mid = nodes_where(gq, lambda n: any(call_name(c) == 'add_block' and
-                                        norm(c.args[0]) in ('dt.time(0, 0, 0)', 'dt.time(0, 0)', 'dt.time(0)',
-                                                            'dt.time()', 'dt.time.min')
-                                        for c in node_calls(n)))
-    check_must_pass(ck, R3, f"{tdr.fid} :: midnight", tdr, gq, gq.entry, mid, [gq.exit],
-                    "TimeDate always registers midnight (dates and weekdays change there)")
-    # TimeSpan registers end points from today on
-    tsr = prog.cls(TS).methods['_event_reconfig']
-    gq = ck.cfg(tsr.fid, 'M0')
-    adds = nodes_calling(gq, 'add_block')
-    ok = len(adds) == 1 and (gq.has_guard(adds[0], 'datetime.date() >= now_date', True) or
-                             gq.has_guard(adds[0], 'now_date <= datetime.date()', True))
-    ck.ob(R3, f"{tsr.fid} :: future end points", ok,
-          "end points of today and later are registered (>=, today included)" if ok else
-          "TimeSpan does not register the end points of today and later", tsr,
-          adds[0].ast if adds else tsr.node)
-    rl = cron.methods.get('reload')
-    gl = ck.cfg(rl.fid, 'M0')
-    puts = nodes_where(gl, lambda n: any(call_name(c) == 'put_nowait' and recv(c) == 'self._queue'
-                                         for c in node_calls(n)))
-    ok = len(puts) == 1 and gl.has_fact(puts[0], 'self._needs_reload.test_clear()', True)
-    ck.ob(R3, rl.fid, ok, "a needed reload wakes the task through the queue" if ok else
-          "reload() does not wake the scheduler through its queue", rl, rl.node)
-    waits = [x for x in own_nodes(mt.node) if isinstance(x, ast.Await) and isinstance(x.value, ast.Call)
-             and norm(x.value.func) == 'asyncio.wait_for' and 'self._queue.get()' in norm(x.value.args[0])]
-    others = [x for x in own_nodes(mt.node) if isinstance(x, ast.Await) and x not in waits]
-    ok = len(waits) == 1 and all(call_name(o.value) == 'sleep' for o in others)
-    ck.ob(R3, f"{mt.fid} :: long sleep waits on the queue", ok,
-          "the long sleep is wait_for(self._queue.get(), ...): a reload cannot be missed" if ok
-          else "the scheduler's long sleep does not wait on the reload queue", mt,
-          waits[0] if waits else mt.node)
-    gw = ck.cfg(mt.fid, 'M1')
-    wn = nodes_where(gw, lambda n: any(x in waits for r in node_roots(n) for x in walk_shallow(r)))
-    oks = False
-    if wn:
-        # woken by the queue => reload flag set
-        sets = nodes_where(gw, lambda n: any(call_name(c) == 'set' and recv(c) == 'reload' for c in node_calls(n)))
-        oks = bool(sets) and any(s_.id in gw.reachable_from(wn[0], labels_excluded=('exc',)) for s_ in sets)
-    ck.ob(R3, f"{mt.fid} :: wake-up => reload", oks,
-          "an item on the queue sets the reload flag (time table rebuilt from the current "
-          "registry)" if oks else "a wake-up through the queue does not rebuild the time table",
-          mt, mt.node)
-    st = cron.methods.get('start')
-    gs = ck.cfg(st.fid, 'M0')
-    qn = nodes_writing_attr(gs, '_queue')
-    ok = len(qn) == 1 and norm(written_value(qn[0], '_queue')) == 'asyncio.Queue()' and \
-        must_pass(gs, gs.entry, qn, [gs.exit]) is None and not st.is_async
-    ck.ob(R3, st.fid, ok, "start() creates the queue synchronously: the task created by "
-          "super().start() first runs after run_forever yields, i.e. after all start() calls"
-          if ok else "Cron.start does not create the reload queue before the task can run", st, st.node)
-    superchain(ck, R3, 'start', classes={CRON})
-
-    # ------------------------------------------------------------------ R07.4
-    for q in (TD, TS):
-        ci = prog.cls(q)
-        sites = []
-        for m in ci.methods.values():
-            for x in own_nodes(m.node):
-                if isinstance(x, ast.Call) and call_name(x) == 'set_output':
-                    sites.append(m.fid)
-        ok = sites == [f"{q}.recalc"]
-        ck.ob(R4, f"{q} :: set_output sites", ok, f"set_output is called from {sites}", None,
-              f"{ci.module.path}:{ci.node.lineno}")
-    gcf = prog.func('blocklib.timedate:_get_cron')
-    up = gcf.node.args.args[0].arg
-    nm = [x for x in own_nodes(gcf.node) if isinstance(x, ast.Assign) and isinstance(x.value, ast.IfExp)]
-    mk = [x for x in own_nodes(gcf.node) if isinstance(x, ast.Call) and norm(x.func) == 'cron.Cron']
-    ok = len(nm) == 1 and norm(nm[0].value.test) == up and len(mk) == 1 and \
-        any(k.arg == 'utc' and norm(k.value) == up for k in mk[0].keywords) and \
-        norm(mk[0].args[0]) == norm(nm[0].targets[0]) and \
-        ast.literal_eval(nm[0].value.body) != ast.literal_eval(nm[0].value.orelse)
-    ck.ob(R4, gcf.fid, ok, "the scheduler's name and its utc mode are chosen by the same flag; "
-          "the two modes use different schedulers" if ok else
-          "a block could get a scheduler running in the other (UTC/local) mode", gcf, gcf.node)
-    dn = cron.methods.get('dtnow')
-    gd = ck.cfg(dn.fid, 'M0')
-    rets = return_nodes(gd)
-    u = [r for r in rets if gd.has_guard(r, 'self._utc', True)]
-    l = [r for r in rets if gd.has_guard(r, 'self._utc', False)]
-    ok = len(u) == 1 and len(l) == 1 and 'utc' in norm(u[0].ast.value).lower() and \
-        'tzinfo=None' in norm(u[0].ast.value) + 'tzinfo=None' * ('utcnow' in norm(u[0].ast.value)) and \
-        norm(l[0].ast.value) == 'dt.datetime.now()'
-    ck.ob(R4, dn.fid, ok, "UTC mode reads the UTC clock (made naive), local mode the local clock"
-          if ok else "dtnow() does not select the clock by the utc flag", dn, dn.node)
-
-    # ------------------------------------------------------------------ R07.5
-    tdc = prog.cls(TD)
-    rcm = tdc.methods.get('recalc')
-    ck.extra['exhaustive_parts'] = ['R07.5: all 27 consistent (given?, member?) combinations of times/dates/weekdays']
-    ck.need(R5, rcm is not None, "TimeDate.recalc not found")
-    so = [x for x in own_nodes(rcm.node) if isinstance(x, ast.Call) and call_name(x) == 'set_output']
-    ck.need(R5, len(so) == 1 and len(so[0].args) == 1, "TimeDate.recalc: set_output call not recognised")
-    expr = so[0].args[0]
-    nowp = rcm.node.args.args[1].arg
-    member_texts = {}
-    for x in [y for st_ in rcm.node.body for y in ast.walk(st_)]:
-        if isinstance(x, ast.Compare) and len(x.ops) == 1 and isinstance(x.ops[0], (ast.In, ast.NotIn)):
-            member_texts[norm(x.comparators[0])] = (norm(x), norm(x.left))
-    ok_ops = set(member_texts) == {'self._times', 'self._dates', 'self._weekdays'} and \
-        member_texts['self._times'][1] == f'{nowp}.time()' and \
-        member_texts['self._weekdays'][1] == f'{nowp}.isoweekday()' and \
-        member_texts['self._dates'][1].replace(' ', '') in (
-            f'ti.convert_date_seq([{nowp}.month,{nowp}.day])',)
-    ck.ob(R5, f"{rcm.fid} :: operands", ok_ops,
-          "time of day, (month, day) and ISO weekday of `now` are tested against the three "
-          "configured sets" if ok_ops else
-          f"the membership tests use unexpected operands: {member_texts}", rcm, rcm.node)
-    if ok_ops:
-        cfgm = tdc.methods.get('_is_configured')
-        conf_ok = cfgm is not None and any(
-            isinstance(x, ast.Call) and call_name(x) == 'any' and isinstance(x.args[0], ast.GeneratorExp)
-            and norm(x.args[0].elt) == f"{norm(x.args[0].generators[0].target)} is not None"
-            and norm(x.args[0].generators[0].iter).replace(' ', '') == '(self._times,self._dates,self._weekdays)'
-            for x in own_nodes(cfgm.node))
-        ck.ob(R5, f"{TD}._is_configured", bool(conf_ok),
-              "configured = any of times/dates/weekdays is not None" if conf_ok else
-              "_is_configured is not 'any of the three settings is given'", cfgm, cfgm.node if cfgm else None)
-        tok = object()
-        for given in itertools.product((False, True), repeat=3):
-            for member in itertools.product((False, True), repeat=3):
-                if any(m_ and not g_ for m_, g_ in zip(member, given)):
-                    continue        # membership in an absent set is meaningless
-                # the whole body is run (whatever its layout: one expression, an if/elif chain, a
-                # flag): the left operands are opaque tokens, the configured sets contain the token
-                # or not, and the argument of set_output is recorded
-                from sa.minieval import MiniEval
-                env = {'self._is_configured()': any(given), 'self._is_configured': lambda given=given: any(given)}
-                outv = []
-                env['self.set_output'] = lambda v, outv=outv: outv.append(v)
-                for key, g_, m_ in zip(('self._times', 'self._dates', 'self._weekdays'), given, member):
-                    left = member_texts[key][1]
-                    env[left] = ('TOKEN', key)
-                    env[key] = ({('TOKEN', key)} if m_ else set()) if g_ else None
-                res = MiniEval(R5, env).run(rcm.node.body)
-                got = outv[0] if (res[0] == 'return' and len(outv) == 1) else None
-                ck.abstract_cases += 1
-                want = any(given) and all((not g_) or m_ for g_, m_ in zip(given, member))
-                ck.ob(R5, f"{rcm.fid} :: given={given} member={member}", bool(got) == want,
-                      f"documented {want}; code {bool(got)}", rcm, rcm.node)
-    p3 = tdc.methods.get('_parse3')
-    norm7 = any(isinstance(x, ast.IfExp) and norm(x.test) in ('x == 0', '0 == x') and
-                is_const(x.body, 7) and norm(x.orelse) == 'x' for x in own_nodes(p3.node))
-    rng = any(isinstance(x, ast.Compare) and norm(x) == '0 <= x <= 7' for x in own_nodes(p3.node))
-    ck.ob(R5, f"{p3.fid} :: weekday normalisation", norm7 and rng,
-          "0 and 7 both mean Sunday and are stored as 7 = isoweekday(); 0..7 accepted" if norm7 and rng
-          else "weekday numbers are not normalised to the isoweekday() convention (Sunday = 7)",
-          p3, p3.node)
-    tsc = prog.cls(TS)
-    rct = tsc.methods.get('recalc')
-    so = [x for x in own_nodes(rct.node) if isinstance(x, ast.Call) and call_name(x) == 'set_output']
-    ok = len(so) == 1 and norm(so[0].args[0]) == f"{rct.node.args.args[1].arg} in self._span"
-    ck.ob(R5, rct.fid, ok, "output = now in span" if ok else
-          "TimeSpan.recalc does not output `now in self._span`", rct, rct.node)
-
-    # ------------------------------------------------------------------ R07.7
-    R7 = ck.rule('R07.7', "the wake-up latency estimate that shortens the interruptible wait is "
-                 "updated only with samples that passed the clock-jump test (a jump must not inflate "
-                 "it: the scheduler would then sleep un-interruptibly, deaf to reload(), for up to "
-                 "half the jump before every wake-up)", 'M0', 1)
-    g7 = ck.cfg(mt.fid, 'M0')
-    est = None
-    for x in own_nodes(mt.node):
-        if isinstance(x, ast.Call) and call_name(x) == 'wait_for' and len(x.args) == 2 and \
-                isinstance(x.args[1], ast.BinOp) and isinstance(x.args[1].op, ast.Sub) and \
-                isinstance(x.args[1].right, ast.Name):
-            est = x.args[1].right.id
-    if est is None:
-        # no latency estimate shortens an interruptible wait: nothing to protect (whether the wait
-        # is interruptible at all is R07.3's business)
-        ck.ob(R7, f"{mt.fid} :: no latency estimate in use", True,
-              "no `wait_for(<queue>.get(), <sleep> - <estimate>)`: nothing to decide here", mt, mt.node)
-        return
-    upd = nodes_where(g7, lambda n: isinstance(n.ast, ast.AugAssign) and norm(n.ast.target) == est)
-    # the jump test: the test whose true outcome sets the reset flag (flag.OR(...) / flag.set())
-    flagname = None
-    for n in g7.nodes:
-        if n.kind == 'test' and isinstance(n.stmt, ast.If) and 'test_clear()' in norm(n.ast):
-            for n2 in nodes_where(g7, lambda m_: 'recalc' in norm(m_.ast) and m_.kind == 'stmt'):
-                if g7.dominates(n, n2) and 'reload' not in norm(n.ast):
-                    flagname = norm(n.ast).split('.')[0]
-    ck.need(R7, flagname is not None, "_maintask: the reset flag was not recognised")
-    jump_false = [n for n in g7.nodes if n.kind == 'branch' and not n.polarity and
-                  f'{flagname}.OR(' in norm(n.test.ast)]
-    ok7 = bool(upd) and bool(jump_false) and all(any(g7.dominates(j, u) for j in jump_false) for u in upd)
-    ck.ob(R7, f"{mt.fid} :: `{est}` updated only after the clock-jump test", ok7,
-          f"every update of `{est}` lies behind the failed test `{flagname}.OR(...)`" if ok7 else
-          f"`{est}` is updated with a wake-up sample that has not passed the clock-jump test "
-          f"`{flagname}.OR(...)`: a forward jump of J seconds inflates it by about J/2", mt,
-          upd[0].ast if upd else mt.node)
-
-    # ------------------------------------------------------------------ R07.8
-    R8 = ck.rule('R07.8', "the delay until the wake-up is the affine form 3600*dh + 60*dm + ds + du/1e6 "
-                 "of the field differences (wake-up minus now), plus one day exactly when now is in "
-                 "hour 23 and the wake-up in hour 0 (the table has an entry in every hour)", 'tables', 2)
-    st8 = [x for x in own_nodes(mt.node) if isinstance(x, ast.Assign) and len(x.targets) == 1 and
-           isinstance(x.targets[0], ast.Name) and sum(1 for a in ast.walk(x.value)
-                                                      if isinstance(a, ast.Attribute) and a.attr in
-                                                      ('hour', 'minute', 'second', 'microsecond')) >= 8]
-    ck.need(R8, len(st8) == 1, "_maintask: the delay computation from the hour/minute/second/microsecond "
-            "fields was not recognised")
-    dvar = st8[0].targets[0].id
-
-    def affine(e):
-        """-> {variable text: coefficient, '': constant}; AnalysisError outside +,-,*const,/const."""
-        if isinstance(e, ast.Constant) and isinstance(e.value, (int, float)) and not isinstance(e.value, bool):
-            return {'': float(e.value)}
-        if isinstance(e, ast.Name):
-            try:
-                v = fold(prog, mod, e)
-            except Unfoldable:
-                v = None
-            if isinstance(v, (int, float)) and not isinstance(v, bool):
-                return {'': float(v)}
-            return {e.id: 1.0}
-        if isinstance(e, ast.Attribute):
-            return {norm(e): 1.0}
-        if isinstance(e, ast.UnaryOp) and isinstance(e.op, ast.USub):
-            return {k: -v for k, v in affine(e.operand).items()}
-        if isinstance(e, ast.BinOp) and isinstance(e.op, (ast.Add, ast.Sub)):
-            a, b = affine(e.left), affine(e.right)
-            sg = 1.0 if isinstance(e.op, ast.Add) else -1.0
-            out = dict(a)
-            for k, v in b.items():
-                out[k] = out.get(k, 0.0) + sg * v
-            return out
-        if isinstance(e, ast.BinOp) and isinstance(e.op, (ast.Mult, ast.Div)):
-            a, b = affine(e.left), affine(e.right)
-            if set(b) <= {''} and (isinstance(e.op, ast.Mult) or b.get('', 0.0) != 0.0):
-                c = b.get('', 0.0)
-                return {k: (v * c if isinstance(e.op, ast.Mult) else v / c) for k, v in a.items()}
-            if set(a) <= {''} and isinstance(e.op, ast.Mult):
-                c = a.get('', 0.0)
-                return {k: v * c for k, v in b.items()}
-        raise AnalysisError(R8, f"delay computation is not affine in the time fields: `{norm(e)[:70]}`")
-    co = {k: v for k, v in affine(st8[0].value).items() if abs(v) > 1e-12}
-    vars_ = sorted({k.rsplit('.', 1)[0] for k in co if '.' in k})
-    okf = len(vars_) == 2
-    msg = f"coefficients {co}"
-    if okf:
-        # which of the two is the wake-up: the one with the positive hour coefficient
-        wk = [v for v in vars_ if co.get(f'{v}.hour', 0) > 0]
-        nw = [v for v in vars_ if co.get(f'{v}.hour', 0) < 0]
-        okf = len(wk) == 1 and len(nw) == 1
-        if okf:
-            want = {}
-            for fld, c in (('hour', 3600.0), ('minute', 60.0), ('second', 1.0), ('microsecond', 1e-6)):
-                want[f'{wk[0]}.{fld}'] = c
-                want[f'{nw[0]}.{fld}'] = -c
-            okf = set(co) == set(want) and all(abs(co[k] - want[k]) <= 1e-9 * max(1.0, abs(want[k])) for k in want)
-            # the wake-up operand is the table entry, the other one the clock reading
-            wdefs = [x for x in own_nodes(mt.node) if isinstance(x, ast.Assign) and norm(x.targets[0]) == wk[0]]
-            okf = okf and bool(wdefs) and all('timetable[' in norm(x.value) for x in wdefs)
-    ck.ob(R8, f"{mt.fid} :: {dvar} = wake-up - now in seconds", okf,
-          "3600*dh + 60*dm + ds + du/1e6 with d = (table entry) - (clock reading)" if okf else
-          f"the delay is not the difference wake-up minus now in seconds: {msg}", mt, st8[0])
-    g8 = ck.cfg(mt.fid, 'M0')
-    wraps = nodes_where(g8, lambda n: isinstance(n.ast, ast.AugAssign) and norm(n.ast.target) == dvar)
-    okw = False
-    if okf and len(wraps) == 1 and isinstance(wraps[0].ast.op, ast.Add):
+    with ck.section('R07.1'):
+        # ------------------------------------------------------------------ R07.1
+        # non-emptiness facts
         try:
-            amount = fold(prog, mod, wraps[0].ast.value)
-        except Unfoldable:
-            amount = None
-        from sa.cfg import canon_fact as _cf8
-        facts = {_cf8(e_, p_) for e_, p_ in g8.guards(wraps[0])}
-        need = {_cf8(ast.parse(f'{nw[0]}.hour == 23', mode='eval').body, True),
-                _cf8(ast.parse(f'{wk[0]}.hour == 0', mode='eval').body, True)}
-        # the guards that dominate the wrap are exactly the two hour tests (plus loop conditions)
-        hour_facts = {f for f in facts if '.hour' in f[0] and ' and ' not in f[0] and ' or ' not in f[0]}
-        okw = amount == 86400 and need <= facts and hour_facts == need and \
-            all(g8.dominates(g8.node_of(st8[0])[0], w_) for w_ in wraps)
-    ck.ob(R8, f"{mt.fid} :: midnight wrap", okw,
-          "one day is added exactly when now is in hour 23 and the wake-up in hour 0" if okw else
-          "the midnight wrap of the delay is missing, conditional on something else, or not one day: "
-          "the wake-up after 23:xx would be scheduled a day early / late", mt,
-          wraps[0].ast if wraps else st8[0])
+            set24 = prog.lookup(mod, '_SET24')
+            nonempty24 = set24 is not None and set24[0] == 'value' and isinstance(set24[1], ast.Call) and \
+                call_name(set24[1]) == 'frozenset' and isinstance(set24[1].args[0], ast.GeneratorExp) and \
+                norm(set24[1].args[0].generators[0].iter) == 'range(24)' and \
+                not set24[1].args[0].generators[0].ifs
+        except Exception:
+            nonempty24 = False
+        elt_ok = nonempty24 and norm(set24[1].args[0].elt) in ('dt.time(hour, 0, 0)', 'dt.time(hour)',
+                                                               'dt.time(hour, 0)')
+        ck.ob(R2, f"{mod.path} :: _SET24", bool(elt_ok),
+              "_SET24 = the 24 full hours (non-empty): wake-ups at least hourly" if elt_ok else
+              "_SET24 is not the set of the 24 full hours", None, f"{mod.path}:1")
+        n_partial = 0
+        for m in cron.methods.values():
+            g = None
+            for x in own_nodes(m.node):
+                if not isinstance(x, ast.Call):
+                    continue
+                bad = None
+                if isinstance(x.func, ast.Attribute) and x.func.attr in PARTIAL_ON_EMPTY and \
+                        isinstance(x.func.value, ast.Name) and x.func.value.id in ('set', 'frozenset') and \
+                        x.args and all(isinstance(a, ast.Starred) for a in x.args):
+                    bad = f"`{norm(x)}`: the unbound method needs at least one argument"
+                    operand = norm(x.args[0].value)
+                elif isinstance(x.func, ast.Name) and x.func.id in ('max', 'min') and len(x.args) == 1 and \
+                        not any(k.arg == 'default' for k in x.keywords) and '_alarms' in norm(x.args[0]):
+                    bad = f"`{norm(x)}` has no default"
+                    operand = norm(x.args[0])
+                elif isinstance(x.func, ast.Name) and x.func.id == 'next' and len(x.args) == 1 and \
+                        '_alarms' in norm(x.args[0]):
+                    bad = f"`{norm(x)}` has no default"
+                    operand = norm(x.args[0])
+                if bad is None:
+                    continue
+                n_partial += 1
+                g = g or ck.cfg(m.fid, 'M0')
+                nodes = g.node_of(x)
+                guarded = bool(nodes) and (g.has_guard(nodes[0], 'self._alarms', True) or
+                                           g.has_guard(nodes[0], 'len(self._alarms) > 0', True))
+                possibly_empty = '_alarms' in operand
+                ck.ob(R1, f"{m.fid} :: {norm1(x)}", guarded or not possibly_empty,
+                      "operand is never empty here" if guarded or not possibly_empty else
+                      f"{bad}; self._alarms may be empty (remove_block deletes keys; a TimeSpan whose "
+                      f"ranges lie in the past registers nothing) -> TypeError in the monitored "
+                      f"service task -> the simulation is terminated", m, x)
+        g = ck.cfg(mt.fid, 'M0')
+        tt = nodes_where(g, lambda n: isinstance(n.ast, ast.Assign) and norm(n.ast.targets[0]) == 'timetable')
+        ok = len(tt) == 1 and '_SET24' in norm(tt[0].ast.value) and 'union' in norm(tt[0].ast.value) \
+            and call_name(tt[0].ast.value) == 'sorted'
+        ck.ob(R1, f"{mt.fid} :: time table", ok and bool(nonempty24),
+              "timetable = sorted(_SET24 U alarms): non-empty, so `% len(timetable)` and "
+              "timetable[index] are total" if ok and nonempty24 else
+              "the time table may be empty (modulo by zero / index error in the scheduler) or is not "
+              "sorted", mt, tt[0].ast if tt else mt.node)
+        mods = [x for x in own_nodes(mt.node) if isinstance(x, ast.BinOp) and isinstance(x.op, ast.Mod)]
+        tl = nodes_where(g, lambda n: isinstance(n.ast, ast.Assign) and norm(n.ast.value) == 'len(timetable)')
+        lname = norm(tl[0].ast.targets[0]) if tl else None
+        ok = bool(mods) and all(norm(m_.right) in (lname, 'len(timetable)') for m_ in mods)
+        ck.ob(R1, f"{mt.fid} :: modulo operands", ok,
+              f"every modulo in the scheduler is by len(timetable) ({len(mods)} sites)" if ok else
+              "a modulo operand in the scheduler is not the (non-zero) table length", mt, mt.node)
+        # the reset loop covers all registered blocks without a partial operation
+        rs_branch = [n for n in g.nodes if n.kind == 'branch' and n.polarity and
+                     norm(n.test.ast) == 'reset.test_clear()']
+        ck.need(R2, len(rs_branch) == 1, "_maintask: reset branch not recognised")
+        rb = rs_branch[0]
+        in_reset = g.reachable_from(rb, avoid=[n for n in g.nodes if n.kind == 'test' and
+                                               isinstance(n.stmt, ast.While)])
+        rc = [n for n in nodes_calling(g, 'recalc') if n.id in in_reset and g.dominates(rb, n)]
+        loops = [l for l in g.nodes if l.kind == 'for' and rc and g.dominates(l, rc[0]) and g.dominates(rb, l)]
+        ok = len(rc) == 1 and len(loops) == 1 and 'self._alarms.values()' in norm(loops[0].ast.iter)
+        if ok:
+            c = node_calls(rc[0], 'recalc')[0]
+            ok = [norm(a) for a in c.args] == ['nowdt'] and recv(c) == norm(loops[0].ast.target)
+        ck.ob(R2, f"{mt.fid} :: reset recalculates everything", ok,
+              "after a clock anomaly every registered block gets recalc(now)" if ok else
+              "the reset branch does not call recalc(now) on every registered block", mt,
+              rc[0].ast if rc else mt.node)
+        idx = [n for n in g.nodes if n.kind == 'stmt' and isinstance(n.ast, ast.Assign) and
+               norm(n.ast.targets[0]) == 'index' and is_const(n.ast.value, None) and g.dominates(rb, n)]
+        cont = [n for n in g.nodes if n.kind == 'stmt' and isinstance(n.ast, ast.Continue) and g.dominates(rb, n)]
+        ok = bool(idx) and bool(cont) and g.path_avoiding(rb, cont, avoid=idx) is None
+        ck.ob(R2, f"{mt.fid} :: reset forgets the index", ok,
+              "index = None, continue: the next wake-up is recomputed from the current clock" if ok
+              else "after a reset the scheduler keeps a stale position in the time table", mt,
+              idx[0].ast if idx else mt.node)
+        raises = [x for x in own_nodes(mt.node) if isinstance(x, ast.Raise)]
+        ck.ob(R2, f"{mt.fid} :: no raise", not raises,
+              "the scheduler contains no raise statement" if not raises else
+              f"the scheduler raises: {norm1(raises[0])}", mt, raises[0] if raises else mt.node)
+        nowr = nodes_where(g, lambda n: isinstance(n.ast, ast.Assign) and norm(n.ast.value) == 'self.dtnow()')
+        ok = len(nowr) >= 2 and all(norm(n.ast.targets[0]) == 'nowdt' for n in nowr)
+        ck.ob(R2, f"{mt.fid} :: clock re-read", ok,
+              "the clock is re-read after every sleep" if ok else
+              "the scheduler does not re-read the clock after sleeping", mt, mt.node)
+
+    with ck.section('R07.6'):
+        # ------------------------------------------------------------------ R07.6
+        R6 = ck.rule('R07.6', "the next wake-up is the first table entry that is NOT BEFORE the current "
+                     "time (equality included): an alarm whose time equals the clock reading at start / "
+                     "reload / reset is due now, not tomorrow", 'M0', 1)
+        searches = [x for x in own_nodes(mt.node) if isinstance(x, ast.Call) and
+                    call_name(x) in ('bisect_left', 'bisect_right', 'bisect') and
+                    len(x.args) >= 2 and norm(x.args[0]) == 'timetable']
+        ck.need(R6, len(searches) == 1, "_maintask: the time-table search is not a single bisect call "
+                "(unrecognised idiom)")
+        sc_ = searches[0]
+        okb = call_name(sc_) == 'bisect_left' and norm(sc_.args[1]) == 'nowt'
+        nowt_defs = [x for x in own_nodes(mt.node) if isinstance(x, ast.Assign) and norm(x.targets[0]) == 'nowt']
+        okb = okb and bool(nowt_defs) and all(norm(x.value) == 'nowdt.time()' for x in nowt_defs)
+        ck.ob(R6, f"{mt.fid} :: {norm1(sc_)}", okb,
+              "bisect_left(timetable, now): an entry equal to now is the next wake-up" if okb else
+              f"`{norm(sc_)}` skips an alarm whose time equals the current clock reading (its blocks "
+              f"stay stale until the next day)", mt, sc_)
+
+    with ck.section('R07.3'):
+        # ------------------------------------------------------------------ R07.3
+        for q, store_attrs in ((TD, ('_times', '_dates', '_weekdays')), (TS, ('_span',))):
+            ci = prog.cls(q)
+            rcf = ci.methods.get('_event_reconfig')
+            ck.need(R3, rcf is not None, f"{q}._event_reconfig not found")
+            gq = ck.cfg(rcf.fid, 'M0')
+
+            def events(n, gq=gq, store_attrs=store_attrs):
+                ev = []
+                for c in node_calls(n):
+                    cn = call_name(c)
+                    if cn == 'remove_block' and recv(c) == 'self._cron':
+                        ev.append('Rm')
+                    elif cn == 'add_block' and recv(c) == 'self._cron':
+                        ev.append('Ad')
+                    elif cn == 'reload' and recv(c) == 'self._cron':
+                        ev.append('Rl')
+                    elif cn == 'recalc' and recv(c) == 'self':
+                        ev.append('Rc')
+                if n.kind == 'stmt' and any(n in nodes_writing_attr(gq, a) for a in store_attrs):
+                    ev.append('St')
+                return ev
+            ok, wit, st = check_language(gq, "Rm* St Ad* Rl Rc", events, [gq.exit])
+            ck.product_states += st['product_states']
+            ck.ob(R3, f"{rcf.fid} :: remove* store add* reload recalc", ok,
+                  "old end points are removed, the configuration is stored, the new end points are "
+                  "added, the scheduler is reloaded, the output is recalculated -- on every path"
+                  if ok else f"a path performs {' '.join(wit[1])}", rcf, rcf.node,
+                  witness=path_witness(gq, wit[0]) if wit else None)
+            for n in nodes_calling(gq, 'add_block') + nodes_calling(gq, 'remove_block'):
+                c = [c for c in node_calls(n) if call_name(c) in ('add_block', 'remove_block')][0]
+                okself = len(c.args) == 2 and norm(c.args[1]) == 'self'
+                if not okself:
+                    ck.ob(R3, f"{rcf.fid} :: {norm1(n.ast)}", False,
+                          "a block registers/unregisters something else than itself", rcf, n.ast)
+            nowsrc = [n for n in nodes_calling(gq, 'recalc')]
+            okn = bool(nowsrc)
+            for n in nowsrc:
+                a = node_calls(n, 'recalc')[0].args[0]
+                okn = okn and expr_is(ck, rcf.fid, 'M0', n, a, 'self._cron.dtnow()')
+            ck.ob(R4, f"{rcf.fid} :: now from the scheduler", okn,
+                  "recalc receives self._cron.dtnow() (same clock and UTC/local mode as the "
+                  "scheduler)" if okn else "the reconfiguration computes 'now' from another clock",
+                  rcf, nowsrc[0].ast if nowsrc else rcf.node)
+        tdr = prog.cls(TD).methods['_event_reconfig']
+        gq = ck.cfg(tdr.fid, 'M0')
+        mid = nodes_where(gq, lambda n: any(call_name(c) == 'add_block' and
+                                            norm(c.args[0]) in ('dt.time(0, 0, 0)', 'dt.time(0, 0)', 'dt.time(0)',
+                                                                'dt.time()', 'dt.time.min')
+                                            for c in node_calls(n)))
+        check_must_pass(ck, R3, f"{tdr.fid} :: midnight", tdr, gq, gq.entry, mid, [gq.exit],
+                        "TimeDate always registers midnight (dates and weekdays change there)")
+        # TimeSpan registers end points from today on
+        tsr = prog.cls(TS).methods['_event_reconfig']
+        gq = ck.cfg(tsr.fid, 'M0')
+        adds = nodes_calling(gq, 'add_block')
+        ok = len(adds) == 1 and (gq.has_guard(adds[0], 'datetime.date() >= now_date', True) or
+                                 gq.has_guard(adds[0], 'now_date <= datetime.date()', True))
+        ck.ob(R3, f"{tsr.fid} :: future end points", ok,
+              "end points of today and later are registered (>=, today included)" if ok else
+              "TimeSpan does not register the end points of today and later", tsr,
+              adds[0].ast if adds else tsr.node)
+        rl = cron.methods.get('reload')
+        gl = ck.cfg(rl.fid, 'M0')
+        puts = nodes_where(gl, lambda n: any(call_name(c) == 'put_nowait' and recv(c) == 'self._queue'
+                                             for c in node_calls(n)))
+        ok = len(puts) == 1 and gl.has_fact(puts[0], 'self._needs_reload.test_clear()', True)
+        ck.ob(R3, rl.fid, ok, "a needed reload wakes the task through the queue" if ok else
+              "reload() does not wake the scheduler through its queue", rl, rl.node)
+        waits = [x for x in own_nodes(mt.node) if isinstance(x, ast.Await) and isinstance(x.value, ast.Call)
+                 and norm(x.value.func) == 'asyncio.wait_for' and 'self._queue.get()' in norm(x.value.args[0])]
+        others = [x for x in own_nodes(mt.node) if isinstance(x, ast.Await) and x not in waits]
+        ok = len(waits) == 1 and all(call_name(o.value) == 'sleep' for o in others)
+        ck.ob(R3, f"{mt.fid} :: long sleep waits on the queue", ok,
+              "the long sleep is wait_for(self._queue.get(), ...): a reload cannot be missed" if ok
+              else "the scheduler's long sleep does not wait on the reload queue", mt,
+              waits[0] if waits else mt.node)
+        gw = ck.cfg(mt.fid, 'M1')
+        wn = nodes_where(gw, lambda n: any(x in waits for r in node_roots(n) for x in walk_shallow(r)))
+        oks = False
+        if wn:
+            # woken by the queue => reload flag set
+            sets = nodes_where(gw, lambda n: any(call_name(c) == 'set' and recv(c) == 'reload' for c in node_calls(n)))
+            oks = bool(sets) and any(s_.id in gw.reachable_from(wn[0], labels_excluded=('exc',)) for s_ in sets)
+        ck.ob(R3, f"{mt.fid} :: wake-up => reload", oks,
+              "an item on the queue sets the reload flag (time table rebuilt from the current "
+              "registry)" if oks else "a wake-up through the queue does not rebuild the time table",
+              mt, mt.node)
+        st = cron.methods.get('start')
+        gs = ck.cfg(st.fid, 'M0')
+        qn = nodes_writing_attr(gs, '_queue')
+        ok = len(qn) == 1 and norm(written_value(qn[0], '_queue')) == 'asyncio.Queue()' and \
+            must_pass(gs, gs.entry, qn, [gs.exit]) is None and not st.is_async
+        ck.ob(R3, st.fid, ok, "start() creates the queue synchronously: the task created by "
+              "super().start() first runs after run_forever yields, i.e. after all start() calls"
+              if ok else "Cron.start does not create the reload queue before the task can run", st, st.node)
+        superchain(ck, R3, 'start', classes={CRON})
+
+    with ck.section('R07.4'):
+        # ------------------------------------------------------------------ R07.4
+        for q in (TD, TS):
+            ci = prog.cls(q)
+            sites = []
+            for m in ci.methods.values():
+                for x in own_nodes(m.node):
+                    if isinstance(x, ast.Call) and call_name(x) == 'set_output':
+                        sites.append(m.fid)
+            ok = sites == [f"{q}.recalc"]
+            ck.ob(R4, f"{q} :: set_output sites", ok, f"set_output is called from {sites}", None,
+                  f"{ci.module.path}:{ci.node.lineno}")
+        gcf = prog.func('blocklib.timedate:_get_cron')
+        up = gcf.node.args.args[0].arg
+        nm = [x for x in own_nodes(gcf.node) if isinstance(x, ast.Assign) and isinstance(x.value, ast.IfExp)]
+        mk = [x for x in own_nodes(gcf.node) if isinstance(x, ast.Call) and norm(x.func) == 'cron.Cron']
+        ok = len(nm) == 1 and norm(nm[0].value.test) == up and len(mk) == 1 and \
+            any(k.arg == 'utc' and norm(k.value) == up for k in mk[0].keywords) and \
+            norm(mk[0].args[0]) == norm(nm[0].targets[0]) and \
+            ast.literal_eval(nm[0].value.body) != ast.literal_eval(nm[0].value.orelse)
+        ck.ob(R4, gcf.fid, ok, "the scheduler's name and its utc mode are chosen by the same flag; "
+              "the two modes use different schedulers" if ok else
+              "a block could get a scheduler running in the other (UTC/local) mode", gcf, gcf.node)
+        dn = cron.methods.get('dtnow')
+        gd = ck.cfg(dn.fid, 'M0')
+        rets = return_nodes(gd)
+        u = [r for r in rets if gd.has_guard(r, 'self._utc', True)]
+        l = [r for r in rets if gd.has_guard(r, 'self._utc', False)]
+        ok = len(u) == 1 and len(l) == 1 and 'utc' in norm(u[0].ast.value).lower() and \
+            'tzinfo=None' in norm(u[0].ast.value) + 'tzinfo=None' * ('utcnow' in norm(u[0].ast.value)) and \
+            norm(l[0].ast.value) == 'dt.datetime.now()'
+        ck.ob(R4, dn.fid, ok, "UTC mode reads the UTC clock (made naive), local mode the local clock"
+              if ok else "dtnow() does not select the clock by the utc flag", dn, dn.node)
+
+    with ck.section('R07.5'):
+        # ------------------------------------------------------------------ R07.5
+        tdc = prog.cls(TD)
+        rcm = tdc.methods.get('recalc')
+        ck.extra['exhaustive_parts'] = ['R07.5: all 27 consistent (given?, member?) combinations of times/dates/weekdays']
+        ck.need(R5, rcm is not None, "TimeDate.recalc not found")
+        so = [x for x in own_nodes(rcm.node) if isinstance(x, ast.Call) and call_name(x) == 'set_output']
+        ck.need(R5, len(so) == 1 and len(so[0].args) == 1, "TimeDate.recalc: set_output call not recognised")
+        expr = so[0].args[0]
+        nowp = rcm.node.args.args[1].arg
+        member_texts = {}
+        for x in [y for st_ in rcm.node.body for y in ast.walk(st_)]:
+            if isinstance(x, ast.Compare) and len(x.ops) == 1 and isinstance(x.ops[0], (ast.In, ast.NotIn)):
+                member_texts[norm(x.comparators[0])] = (norm(x), norm(x.left))
+        ok_ops = set(member_texts) == {'self._times', 'self._dates', 'self._weekdays'} and \
+            member_texts['self._times'][1] == f'{nowp}.time()' and \
+            member_texts['self._weekdays'][1] == f'{nowp}.isoweekday()' and \
+            member_texts['self._dates'][1].replace(' ', '') in (
+                f'ti.convert_date_seq([{nowp}.month,{nowp}.day])',)
+        ck.ob(R5, f"{rcm.fid} :: operands", ok_ops,
+              "time of day, (month, day) and ISO weekday of `now` are tested against the three "
+              "configured sets" if ok_ops else
+              f"the membership tests use unexpected operands: {member_texts}", rcm, rcm.node)
+        if ok_ops:
+            cfgm = tdc.methods.get('_is_configured')
+            conf_ok = cfgm is not None and any(
+                isinstance(x, ast.Call) and call_name(x) == 'any' and isinstance(x.args[0], ast.GeneratorExp)
+                and norm(x.args[0].elt) == f"{norm(x.args[0].generators[0].target)} is not None"
+                and norm(x.args[0].generators[0].iter).replace(' ', '') == '(self._times,self._dates,self._weekdays)'
+                for x in own_nodes(cfgm.node))
+            ck.ob(R5, f"{TD}._is_configured", bool(conf_ok),
+                  "configured = any of times/dates/weekdays is not None" if conf_ok else
+                  "_is_configured is not 'any of the three settings is given'", cfgm, cfgm.node if cfgm else None)
+            tok = object()
+            for given in itertools.product((False, True), repeat=3):
+                for member in itertools.product((False, True), repeat=3):
+                    if any(m_ and not g_ for m_, g_ in zip(member, given)):
+                        continue        # membership in an absent set is meaningless
+                    # the whole body is run (whatever its layout: one expression, an if/elif chain, a
+                    # flag): the left operands are opaque tokens, the configured sets contain the token
+                    # or not, and the argument of set_output is recorded
+                    from sa.minieval import MiniEval
+                    env = {'self._is_configured()': any(given), 'self._is_configured': lambda given=given: any(given)}
+                    outv = []
+                    env['self.set_output'] = lambda v, outv=outv: outv.append(v)
+                    for key, g_, m_ in zip(('self._times', 'self._dates', 'self._weekdays'), given, member):
+                        left = member_texts[key][1]
+                        env[left] = ('TOKEN', key)
+                        env[key] = ({('TOKEN', key)} if m_ else set()) if g_ else None
+                    res = MiniEval(R5, env).run(rcm.node.body)
+                    got = outv[0] if (res[0] == 'return' and len(outv) == 1) else None
+                    ck.abstract_cases += 1
+                    want = any(given) and all((not g_) or m_ for g_, m_ in zip(given, member))
+                    ck.ob(R5, f"{rcm.fid} :: given={given} member={member}", bool(got) == want,
+                          f"documented {want}; code {bool(got)}", rcm, rcm.node)
+        p3 = tdc.methods.get('_parse3')
+        norm7 = any(isinstance(x, ast.IfExp) and norm(x.test) in ('x == 0', '0 == x') and
+                    is_const(x.body, 7) and norm(x.orelse) == 'x' for x in own_nodes(p3.node))
+        rng = any(isinstance(x, ast.Compare) and norm(x) == '0 <= x <= 7' for x in own_nodes(p3.node))
+        ck.ob(R5, f"{p3.fid} :: weekday normalisation", norm7 and rng,
+              "0 and 7 both mean Sunday and are stored as 7 = isoweekday(); 0..7 accepted" if norm7 and rng
+              else "weekday numbers are not normalised to the isoweekday() convention (Sunday = 7)",
+              p3, p3.node)
+        tsc = prog.cls(TS)
+        rct = tsc.methods.get('recalc')
+        so = [x for x in own_nodes(rct.node) if isinstance(x, ast.Call) and call_name(x) == 'set_output']
+        ok = len(so) == 1 and norm(so[0].args[0]) == f"{rct.node.args.args[1].arg} in self._span"
+        ck.ob(R5, rct.fid, ok, "output = now in span" if ok else
+              "TimeSpan.recalc does not output `now in self._span`", rct, rct.node)
+
+    with ck.section('R07.7'):
+        # ------------------------------------------------------------------ R07.7
+        R7 = ck.rule('R07.7', "the wake-up latency estimate that shortens the interruptible wait is "
+                     "updated only with samples that passed the clock-jump test (a jump must not inflate "
+                     "it: the scheduler would then sleep un-interruptibly, deaf to reload(), for up to "
+                     "half the jump before every wake-up)", 'M0', 1)
+        g7 = ck.cfg(mt.fid, 'M0')
+        est = None
+        for x in own_nodes(mt.node):
+            if isinstance(x, ast.Call) and call_name(x) == 'wait_for' and len(x.args) == 2 and \
+                    isinstance(x.args[1], ast.BinOp) and isinstance(x.args[1].op, ast.Sub) and \
+                    isinstance(x.args[1].right, ast.Name):
+                est = x.args[1].right.id
+        if est is None:
+            # no latency estimate shortens an interruptible wait: nothing to protect (whether the wait
+            # is interruptible at all is R07.3's business)
+            ck.ob(R7, f"{mt.fid} :: no latency estimate in use", True,
+                  "no `wait_for(<queue>.get(), <sleep> - <estimate>)`: nothing to decide here", mt, mt.node)
+            return
+        upd = nodes_where(g7, lambda n: isinstance(n.ast, ast.AugAssign) and norm(n.ast.target) == est)
+        # the jump test: the test whose true outcome sets the reset flag (flag.OR(...) / flag.set())
+        flagname = None
+        for n in g7.nodes:
+            if n.kind == 'test' and isinstance(n.stmt, ast.If) and 'test_clear()' in norm(n.ast):
+                for n2 in nodes_where(g7, lambda m_: 'recalc' in norm(m_.ast) and m_.kind == 'stmt'):
+                    if g7.dominates(n, n2) and 'reload' not in norm(n.ast):
+                        flagname = norm(n.ast).split('.')[0]
+        ck.need(R7, flagname is not None, "_maintask: the reset flag was not recognised")
+        jump_false = [n for n in g7.nodes if n.kind == 'branch' and not n.polarity and
+                      f'{flagname}.OR(' in norm(n.test.ast)]
+        ok7 = bool(upd) and bool(jump_false) and all(any(g7.dominates(j, u) for j in jump_false) for u in upd)
+        ck.ob(R7, f"{mt.fid} :: `{est}` updated only after the clock-jump test", ok7,
+              f"every update of `{est}` lies behind the failed test `{flagname}.OR(...)`" if ok7 else
+              f"`{est}` is updated with a wake-up sample that has not passed the clock-jump test "
+              f"`{flagname}.OR(...)`: a forward jump of J seconds inflates it by about J/2", mt,
+              upd[0].ast if upd else mt.node)
+
+    with ck.section('R07.8'):
+        # ------------------------------------------------------------------ R07.8
+        R8 = ck.rule('R07.8', "the delay until the wake-up is the affine form 3600*dh + 60*dm + ds + du/1e6 "
+                     "of the field differences (wake-up minus now), plus one day exactly when now is in "
+                     "hour 23 and the wake-up in hour 0 (the table has an entry in every hour)", 'tables', 2)
+        st8 = [x for x in own_nodes(mt.node) if isinstance(x, ast.Assign) and len(x.targets) == 1 and
+               isinstance(x.targets[0], ast.Name) and sum(1 for a in ast.walk(x.value)
+                                                          if isinstance(a, ast.Attribute) and a.attr in
+                                                          ('hour', 'minute', 'second', 'microsecond')) >= 8]
+        ck.need(R8, len(st8) == 1, "_maintask: the delay computation from the hour/minute/second/microsecond "
+                "fields was not recognised")
+        dvar = st8[0].targets[0].id
+
+        def affine(e):
+            """-> {variable text: coefficient, '': constant}; AnalysisError outside +,-,*const,/const."""
+            if isinstance(e, ast.Constant) and isinstance(e.value, (int, float)) and not isinstance(e.value, bool):
+                return {'': float(e.value)}
+            if isinstance(e, ast.Name):
+                try:
+                    v = fold(prog, mod, e)
+                except Unfoldable:
+                    v = None
+                if isinstance(v, (int, float)) and not isinstance(v, bool):
+                    return {'': float(v)}
+                return {e.id: 1.0}
+            if isinstance(e, ast.Attribute):
+                return {norm(e): 1.0}
+            if isinstance(e, ast.UnaryOp) and isinstance(e.op, ast.USub):
+                return {k: -v for k, v in affine(e.operand).items()}
+            if isinstance(e, ast.BinOp) and isinstance(e.op, (ast.Add, ast.Sub)):
+                a, b = affine(e.left), affine(e.right)
+                sg = 1.0 if isinstance(e.op, ast.Add) else -1.0
+                out = dict(a)
+                for k, v in b.items():
+                    out[k] = out.get(k, 0.0) + sg * v
+                return out
+            if isinstance(e, ast.BinOp) and isinstance(e.op, (ast.Mult, ast.Div)):
+                a, b = affine(e.left), affine(e.right)
+                if set(b) <= {''} and (isinstance(e.op, ast.Mult) or b.get('', 0.0) != 0.0):
+                    c = b.get('', 0.0)
+                    return {k: (v * c if isinstance(e.op, ast.Mult) else v / c) for k, v in a.items()}
+                if set(a) <= {''} and isinstance(e.op, ast.Mult):
+                    c = a.get('', 0.0)
+                    return {k: v * c for k, v in b.items()}
+            raise AnalysisError(R8, f"delay computation is not affine in the time fields: `{norm(e)[:70]}`")
+        co = {k: v for k, v in affine(st8[0].value).items() if abs(v) > 1e-12}
+        vars_ = sorted({k.rsplit('.', 1)[0] for k in co if '.' in k})
+        okf = len(vars_) == 2
+        msg = f"coefficients {co}"
+        if okf:
+            # which of the two is the wake-up: the one with the positive hour coefficient
+            wk = [v for v in vars_ if co.get(f'{v}.hour', 0) > 0]
+            nw = [v for v in vars_ if co.get(f'{v}.hour', 0) < 0]
+            okf = len(wk) == 1 and len(nw) == 1
+            if okf:
+                want = {}
+                for fld, c in (('hour', 3600.0), ('minute', 60.0), ('second', 1.0), ('microsecond', 1e-6)):
+                    want[f'{wk[0]}.{fld}'] = c
+                    want[f'{nw[0]}.{fld}'] = -c
+                okf = set(co) == set(want) and all(abs(co[k] - want[k]) <= 1e-9 * max(1.0, abs(want[k])) for k in want)
+                # the wake-up operand is the table entry, the other one the clock reading
+                wdefs = [x for x in own_nodes(mt.node) if isinstance(x, ast.Assign) and norm(x.targets[0]) == wk[0]]
+                okf = okf and bool(wdefs) and all('timetable[' in norm(x.value) for x in wdefs)
+        ck.ob(R8, f"{mt.fid} :: {dvar} = wake-up - now in seconds", okf,
+              "3600*dh + 60*dm + ds + du/1e6 with d = (table entry) - (clock reading)" if okf else
+              f"the delay is not the difference wake-up minus now in seconds: {msg}", mt, st8[0])
+        g8 = ck.cfg(mt.fid, 'M0')
+        wraps = nodes_where(g8, lambda n: isinstance(n.ast, ast.AugAssign) and norm(n.ast.target) == dvar)
+        okw = False
+        if okf and len(wraps) == 1 and isinstance(wraps[0].ast.op, ast.Add):
+            try:
+                amount = fold(prog, mod, wraps[0].ast.value)
+            except Unfoldable:
+                amount = None
+            from sa.cfg import canon_fact as _cf8
+            facts = {_cf8(e_, p_) for e_, p_ in g8.guards(wraps[0])}
+            need = {_cf8(ast.parse(f'{nw[0]}.hour == 23', mode='eval').body, True),
+                    _cf8(ast.parse(f'{wk[0]}.hour == 0', mode='eval').body, True)}
+            # the guards that dominate the wrap are exactly the two hour tests (plus loop conditions)
+            hour_facts = {f for f in facts if '.hour' in f[0] and ' and ' not in f[0] and ' or ' not in f[0]}
+            okw = amount == 86400 and need <= facts and hour_facts == need and \
+                all(g8.dominates(g8.node_of(st8[0])[0], w_) for w_ in wraps)
+        ck.ob(R8, f"{mt.fid} :: midnight wrap", okw,
+              "one day is added exactly when now is in hour 23 and the wake-up in hour 0" if okw else
+              "the midnight wrap of the delay is missing, conditional on something else, or not one day: "
+              "the wake-up after 23:xx would be scheduled a day early / late", mt,
+              wraps[0].ast if wraps else st8[0])
